@@ -48,9 +48,13 @@ def _vm_user(*xs, scale=1.0):  # never executed: only graph=True is requested
 
 @st.composite
 def c17_case(draw, tier="quick", k=0):
-    if draw(st.integers(0, 7)) == 0:
+    r = draw(st.integers(0, 15))
+    if r <= 1:
         base = draw(G.call_case(ops=["vmapop"], quick=True, backends=[None]))
         base["adapter"] = "vmap"
+    elif r == 2:
+        # the one operation with an integer argument that relates to axis lengths (shift vs. length of the rolled axis)
+        base = draw(G.call_case(ops=["roll"], quick=(tier == "quick"), backends=C17_BACKENDS))
     else:
         base = draw(G.stratified_case(k, quick=(tier == "quick"), backends=C17_BACKENDS))
     seeds = [draw(st.integers(0, 2**20)) for _ in range(4)]
